@@ -6,31 +6,45 @@ PLAN = dict(
         quick=[(R, "quick", 16), (D, "small", 16)],
         thorough=[(R, "thorough", 16), (D, "quick", 16), (M, "mini", 8)],
     ),
-    rule=("cases are (a) distinfo texts for 1-6 files whose well-formed lines ('ALG (name) = hash', "
+    rule=("cases are (a) distinfo texts for 1-6 files (every 60th text: 17-300 files, mostly 21-80) whose "
+          "well-formed lines ('ALG (name) = hash', "
           "'Size (name) = N bytes', one or more blanks/tabs between fields, optional leading blanks, hashes "
           "unique per line) are interleaved arbitrarily, with must-ignore lines (comments incl. commented-out "
           "well-formed lines, blank lines, unknown algorithms, unparsable sizes, garbage whose first field is no "
           "keyword or whose second field is not parenthesised, the unexpanded $NetBSD$) inserted at every "
           "position and naming the document's own files or a ghost file; the parse result is compared entry by "
           "entry with a model updated by the well-formed lines only (per-kind first-appearance order, "
-          "checksums in line order, size, kind, lookups by name); (b) the classification table rows and random "
-          "edits of them, through EntryType::from and through a parsed line; (c) an alias workload for known "
-          "finding K2. Non-trivial = at least two files whose lines are interleaved and at least one "
-          "must-ignore line; distinct = distinct texts by 64-bit fingerprint."),
+          "checksums in line order, size, kind, lookups by name); names as in C10, i.e. including names "
+          "assembled from the clauses of the classification rule, names derived from another name of the "
+          "document (shared trailing components, shared prefix, letter-case twins, twins under lossy UTF-8 "
+          "conversion) and 30-200 byte names; (a') a shared-tail workload: chains of 2-4 names of one kind each "
+          "of which is a trailing sub-path of the next ('foo.tgz', 'sub/foo.tgz', 'a/sub/foo.tgz'; 'b/f', "
+          "'a/b/f'; patches as 'patch-aa', 'patch-d/patch-aa'), optionally a sibling and up to two unrelated "
+          "files, every order of first appearance, lines interleaved or grouped; (b) the classification table "
+          "(48 rows incl. the combined ones: emul-<os>-patch-local-x is a patch, the exceptions on emul patches "
+          "and on patch-local names, stacked exceptions, clauses in the middle of a name, upper-case variants), "
+          "random edits of the rows, and (b') names assembled from heads x bodies x 0-3 tails of the rule's "
+          "clauses or free mixtures of their fragments, each through EntryType::from and through a parsed "
+          "line, expectation from an oracle that refuses every name on which two readings of the rule differ; "
+          "(c) an alias workload for known finding K2. Non-trivial = at least two files whose lines are "
+          "interleaved and at least one must-ignore line; distinct = distinct texts by 64-bit fingerprint."),
     assumptions=[
         "the harness's model of 'well-formed' and 'must-ignore' lines is what the statement means; near-miss lines are not generated",
         "known finding K2 (path-alias-merge) is recognised only in the alias workload, only for two names that differ as bytes and are equal as std::path::Path, and only when the observation is exactly the second name's lines appended to the first name's entry",
     ],
     technique="runtime monitor: generated line soups parsed by the real Distinfo::from_bytes and compared with the generating model (ground truth by construction); classification rule compared with an independent reading that refuses ambiguous names; thorough tier re-runs a reduced workload under Miri",
-    level_text=("Exploration: ~4x10^5 (quick) to ~4x10^6 (thorough) generated texts plus the classification "
-                "table, ~6x10^4 / 6x10^5 edited rows and 1.6x10^4 / 1.6x10^5 alias documents are parsed and compared with the model; held means held on "
-                "the texts observed, which reach every line class, grouped and interleaved layouts, every "
-                "classification-table row and every dangerous name-byte class."),
+    level_text=("Exploration: ~4.4x10^5 (quick) to ~4.4x10^6 (thorough) generated texts plus the classification "
+                "table, ~6x10^4 / 6x10^5 edited rows, ~1.2x10^5 / 1.2x10^6 clause-assembled names and 1.6x10^4 / 1.6x10^5 alias documents are parsed and compared with the model; held means held on "
+                "the texts observed, which reach every line class, grouped and interleaved layouts, texts of more "
+                "than 20 files, shared-tail pairs of both kinds in both orders of appearance, every "
+                "classification-table row, every clause-combination class and every dangerous name-byte class."),
     level_note="trusts the generator's model; one known finding (K2) is reported as KNOWN-FINDING and not counted as a violation",
     not_explored=[
         "near-miss lines: a supported keyword and a parenthesised name but missing or surplus fields ('SHA1 (x)', 'Size (x) = 5', a bare 'SHA1', a third field other than '=')",
         "upper/lower-case variants of algorithm keywords and of 'Size'; upper-case or empty hashes; '+5' / '007' sizes; two Size lines for one file",
         "names whose kind depends on the reading of the rule ('dir/patch-aa', 'emul-patch-x', 'patch-x.tar'); names with white space, 0x0B, 0x0C",
+        "shared-tail pairs of different kinds: two names with the same last component have the same kind under the last-component reading, so a differing kind needs a name on which the readings differ ('d/patch-aa')",
+        "texts of more than 300 files",
         "names for which PathBuf normalisation matters, outside the alias workload",
         "trailing blanks or CR at the end of a well-formed line; a final line without LF",
         "several RCS Id lines in one text (one may occur as a neutral line; its value is not compared here)",
